@@ -23,7 +23,7 @@ struct Reader {
 };
 
 enum OKind { O_I8, O_U8, O_I16, O_U16, O_I32, O_U32, O_I64, O_U64, O_BOOL, O_F32, O_F64, O_MNEM, O_TEXT, O_BLOCK, O_BLOCKHDR, O_BLOCKDATA,
-             O_ARR, O_ERRPUSH, O_KINDS };
+             O_ARR, O_ERRPUSH, O_KINDS, O_UNIT = 99 /* c17: next unit of a compound message */ };
 
 struct OItem {
     OKind kind = O_I32;
